@@ -18,6 +18,7 @@ type kase struct {
 	Name    string `json:"name,omitempty"`  // built-in
 	Def     string `json:"def,omitempty"`   // definition letters
 	Cased   bool   `json:"cased,omitempty"` // case sensitive
+	Reused  bool   `json:"reused,omitempty"` // the Pairing was given to a case-insensitive complementor first
 	S       string `json:"s,omitempty"`     // pairing definition
 	C       string `json:"c,omitempty"`
 	Letters []byte `json:"letters,omitempty"` // AllValid input
@@ -299,6 +300,11 @@ func check(c *enum.Ctx, k kase) bool {
 		}
 		if valid && err == nil && k.Def != "" {
 			// complementor over an alphabet the pairing is closed over
+			if k.Reused {
+				// the same Pairing value served another complementor before (what that one makes of
+				// lower-case-only pairs is not judged here; the Pairing must come out of it unchanged)
+				alphabet.NewComplementor(k.Def, feat.DNA, p, '-', 'n', !k.Cased)
+			}
 			cm, err := alphabet.NewComplementor(k.Def, feat.DNA, p, '-', 'n', k.Cased)
 			if err != nil {
 				c.Fail("NewComplementor/closed-pairing-rejected", k, "NewComplementor(%q, pairing %q/%q) = %v", k.Def, k.S, k.C, err)
@@ -313,7 +319,7 @@ func check(c *enum.Ctx, k kase) bool {
 }
 
 func run(c *enum.Ctx) {
-	c.Rule("complete: 7 built-in alphabets x all 256 letters (validity, index, letter, complement method/table) and every letter slice of length <=3 over {valid lower, valid upper, invalid, 0xFF} and every slice of length 4..19, 63..66 of valid letters with zero, one or two invalid letters at every position; bounded-exhaustive: every alphabet definition of length 1..4 over {a,B,c,-,*} without case-duplicates, cased and uncased; every pair of strings of length <=3 over {a,c,g,t} (plus mismatched lengths and a non-ASCII rune at every position) as a pairing definition, with a complementor over every alphabet it is closed over; distinct = distinct case descriptors; non-trivial = cases where a constructor succeeded or a built-in was queried")
+	c.Rule("complete: 7 built-in alphabets x all 256 letters (validity, index, letter, complement method/table) and every letter slice of length <=3 over {valid lower, valid upper, invalid, 0xFF} and every slice of length 4..19, 63..66 of valid letters with zero, one or two invalid letters at every position; bounded-exhaustive: every alphabet definition of length 1..4 over {a,B,c,-,*} without case-duplicates, cased and uncased; every pair of strings of length <=3 over {a,c,g,t} (plus mismatched lengths and a non-ASCII rune at every position) as a pairing definition, with a complementor over every alphabet it is closed over (also with a Pairing value that served a case-insensitive complementor first); distinct = distinct case descriptors; non-trivial = cases where a constructor succeeded or a built-in was queried")
 	c.Assume("reference definitions of the built-in alphabets are restated in the harness from the package documentation")
 	n := 0
 	do := func(k kase) {
@@ -407,6 +413,7 @@ func run(c *enum.Ctx) {
 					}
 				}
 				do(kase{Kind: "new-pairing", S: s, C: cs, Def: def, Cased: true})
+				do(kase{Kind: "new-pairing", S: s, C: cs, Def: def, Cased: true, Reused: true})
 				up := strings.ToUpper(s)
 				upc := strings.ToUpper(cs)
 				do(kase{Kind: "new-pairing", S: s + up, C: cs + upc, Def: def, Cased: false})
